@@ -8,6 +8,8 @@ from ..core import call_attr, calls_in, const, dotted, is_const, kwarg, norm, sl
 from . import c04
 
 EXPLANATION = [
+    'C05.queue-by-transport: host.Connection selects its packet queue by transport alone: host.le_acl_packet_queue for LE, host.acl_packet_queue for BR/EDR, on every path of __init__.',
+    'C05.registered-before-emit: every Host handler that enters a link into connections / cis_links / sco_links / bis_links does so before any emit on the path (a listener that sends at once finds the handle).',
     'C05.fragment-forwarded: in Controller.on_hci_acl_data_packet every path on which the connection was found hands the packet to it: no filter in the dispatcher drops a fragment.',
     'C05.header-masks: every constant mask applied to the header word in HCI_AclDataPacket / HCI_SynchronousDataPacket / HCI_IsoDataPacket.from_bytes is a run of low one-bits (2^k - 1), and the ACL connection handle is cut with the 12-bit mask: no handle loses a bit on the way in.',
     'C05.format-safe: (shared with C17.format-safe) the formatting methods of the packet classes read only attributes that exist and format optional fields as numbers only under a guard: every HCI packet is formatted for the debug log before it is sent or dispatched, so a raising __str__ loses the fragment.',
@@ -526,7 +528,89 @@ def fragment_forwarded(ctx, rule='C05.fragment-forwarded', q='bumble.controller.
     R.check(any(v[1] for v in ex) and not dropped, rule, q, f'every path on which `{found}` was found reaches {forward}(...)', f'a path finds the destination (`{found}`) and returns without calling {forward}: a well-formed fragment is dropped by a filter in the dispatcher (no completion is reported for it either, so the sender stalls)', p.loc(fn), dropped[:2])
 
 
+def registered_before_emit(ctx):
+    """The host enters a new link into its handle table before it tells anybody about it: a listener of the connection
+    event that sends at once goes through send_acl_sdu, which drops the PDU for a handle it does not know."""
+    R, p = ctx.r, ctx.p
+    rule = 'C05.registered-before-emit'
+    ci = p.cls('bumble.host.Host')
+    if ci is None:
+        R.bad(rule, 'bumble.host.Host', 'anchor missing')
+        return
+    TABLES = ('self.connections', 'self.cis_links', 'self.sco_links', 'self.bis_links')
+    n = 0
+    for name, fn in sorted(ci.methods.items()):
+        stores = [s_ for s_ in walk_local(fn) if isinstance(s_, ast.Assign) and isinstance(s_.targets[0], ast.Subscript) and dotted(s_.targets[0].value) in TABLES]
+        if not stores:
+            continue
+        n += 1
+        late = []
+
+        class D(paths.Domain):
+            def event(self, node, v):
+                if isinstance(node, ast.Call) and dotted(node.func) == 'self.emit':
+                    return (True,)
+                if isinstance(node, ast.Assign) and any(node is s_ for s_ in stores) and v:
+                    late.append(node)
+                return (v,)
+        paths.run(fn, D(), False)
+        R.check(not late, rule, f'bumble.host.Host.{name}', f'{len(stores)} table store(s), none after an emit', f'{name} announces the link (emit) before entering it into {dotted(late[0].targets[0].value) if late else "?"}: an L2CAP PDU sent from a listener of that event is dropped by send_acl_sdu ("connection not found") and never reaches the peer', p.loc(late[0]) if late else p.loc(fn))
+    R.check(n >= 4, rule, 'bumble.host.Host | handlers that register links', f'{n}', f'only {n} found')
+
+
+def queue_by_transport(ctx):
+    """host.Connection picks its ACL queue by transport alone: LE links use the LE pool (fragment size and credits of
+    LE_Read_Buffer_Size), BR/EDR links the BR/EDR pool.  Host.reset() aliases the two when the controller has no LE pool."""
+    R, p = ctx.r, ctx.p
+    rule = 'C05.queue-by-transport'
+    fn = p.find('bumble.host.Connection.__init__')
+    if fn is None:
+        R.bad(rule, 'bumble.host.Connection.__init__', 'anchor missing')
+        return
+
+    def is_le(t):
+        return isinstance(t, ast.Compare) and len(t.ops) == 1 and isinstance(t.ops[0], ast.Eq) and {norm(t.left), norm(t.comparators[0])} >= {'transport'} and any(x.endswith('.LE') for x in (norm(t.left), norm(t.comparators[0])))
+
+    def run(le):
+        final = set()
+
+        def ev(e, env):
+            if isinstance(e, ast.IfExp):
+                if is_le(e.test):
+                    return ev(e.body if le else e.orelse, env)
+                return ev(e.body, env) | ev(e.orelse, env)
+            if isinstance(e, ast.Name) and e.id in env:
+                return set(env[e.id])
+            if isinstance(e, ast.BoolOp):
+                return set().union(*[ev(v, env) for v in e.values])
+            return {norm(e)}
+
+        class D(paths.Domain):
+            def event(self, node, v):
+                env = dict(v)
+                if isinstance(node, (ast.Assign, ast.AnnAssign)) and getattr(node, 'value', None) is not None:
+                    t = node.targets[0] if isinstance(node, ast.Assign) else node.target
+                    if isinstance(t, ast.Name):
+                        env[t.id] = frozenset(ev(node.value, env))
+                        return (tuple(sorted(env.items())),)
+                    if dotted(t) == 'self.acl_packet_queue':
+                        final.update(ev(node.value, env))
+                return (v,)
+
+            def assume(self, atom, truth, v):
+                if is_le(atom):
+                    return (v,) if truth == le else ()
+                return (v,)
+        paths.run(fn, D(), ())
+        return final
+    for le, want in ((True, 'host.le_acl_packet_queue'), (False, 'host.acl_packet_queue')):
+        got = run(le)
+        R.check(got == {want}, rule, f'bumble.host.Connection.__init__ | {"LE" if le else "BR/EDR"} link', f'uses {want}', f'a{"n LE" if le else " BR/EDR"} link may use {sorted(got)}: its PDUs are fragmented to the other pool\'s packet length and flow-controlled with the other pool\'s credits (fragments longer than the controller accepts for that transport)', p.loc(fn))
+
+
 RULES = [
+    ('C05.queue-by-transport', queue_by_transport),
+    ('C05.registered-before-emit', registered_before_emit),
     ('C05.fragment-forwarded', fragment_forwarded),
     ('C05.header-masks', header_masks),
     ('C05.format-safe', format_safe_rule),
